@@ -31,7 +31,8 @@ type jsonable interface {
 }
 
 // content of a container as a uniform sequence in iteration order:
-//   value containers: elements (heap elements coded 10*p+id); key-value containers: [key, value] pairs
+//
+//	value containers: elements (heap elements coded 10*p+id); key-value containers: [key, value] pairs
 func contentOf(x Inst) []any {
 	out := []any{}
 	switch t := x.(type) {
@@ -163,7 +164,8 @@ func drain(x Inst) []any {
 }
 
 // reference decoding of a text for a kind (trusted instrument: encoding/json):
-//   value containers: the elements in textual order; key-value: [key, value] pairs in textual order
+//
+//	value containers: the elements in textual order; key-value: [key, value] pairs in textual order
 func refDecode(x Inst, text []byte) (ref []any, ok bool) {
 	ref = []any{}
 	switch x.(type) {
